@@ -756,18 +756,25 @@ def rule_twins(model):
     # read by name
     val = model.func('DT_InSV', 'sequence_variables.value')
     split_i = read_i = None
+    namep = val.params()[2]
     for i, st in enumerate(val.node.body):
-        if isinstance(st, ast.If) and 'len(item) == 2' in norm(st.test) \
-                and split_i is None:
+        if split_i is None and any(
+                isinstance(x, (ast.If, ast.IfExp)) and any(
+                    isinstance(y, ast.Compare) and isinstance(
+                        y.left, ast.Call) and norm(y.left.func) == 'len'
+                    and isinstance(y.comparators[0], ast.Constant) and
+                    y.comparators[0].value == 2 for y in ast.walk(x.test))
+                for x in ast.walk(st)):
             split_i = i
-        reads = any(
-            (isinstance(x, ast.Subscript) and norm(x.value) == 'item' and
-             norm(x.slice) == val.params()[2]) or
-            (isinstance(x, ast.Call) and norm(x.func) == 'getattr' and
-             x.args and norm(x.args[0]) == 'item')
-            for x in ast.walk(st))
+        # (a statement that holds both -- an inlined helper -- is judged
+        # by the order of its own parts)
+        reads = [x for x in ast.walk(st) if
+                 (isinstance(x, ast.Subscript) and isinstance(
+                     x.ctx, ast.Load) and norm(x.slice) == namep) or
+                 (isinstance(x, ast.Call) and norm(x.func) == 'getattr' and
+                  len(x.args) >= 2 and norm(x.args[1]) == namep)]
         if reads and read_i is None:
-            read_i = i
+            read_i = i if split_i is None or split_i < i else i + 0.5
     r.instance(val.where, f'split @{split_i}, read by name @{read_i}')
     if split_i is None or read_i is None:
         raise AnalysisError('sequence_variables.value: split / read not '
